@@ -56,11 +56,19 @@ func runC20(c *eng.Ctx) {
 				var ks []string
 				all := true
 				for _, fc := range g.EdgeDisjuncts(e) {
+					// slices.Contains(<constant list>, Ext(name))
+					if cl, isC := ast.Unparen(fc.X).(*ast.CallExpr); isC && fc.Y == nil && fc.Pos && len(cl.Args) == 2 && eng.IsPkgFunc(eng.CalleeOf(info, cl), "slices", "Contains") && isExtCall(resolveLocal(info, f.Decl.Body, cl.Args[1])) {
+						if set, isSet := constStringSet(p, info, f.Decl.Body, cl.Args[0]); isSet {
+							ks = append(ks, set...)
+							continue
+						}
+					}
 					x, y, eq, isEq := eng.EqAtom(fc)
 					if !isEq || !eq {
 						all = false
 						break
 					}
+					x, y = resolveLocal(info, f.Decl.Body, x), resolveLocal(info, f.Decl.Body, y)
 					if !isExtCall(x) {
 						x, y = y, x
 					}
@@ -95,12 +103,12 @@ func runC20(c *eng.Ctx) {
 			if !isR || len(r.Results) != 1 || eng.SelObj(info, r.Results[0]) != hiddenErr {
 				continue
 			}
-			hiddenOK = g.OnlyVia(n, nil, g.FactEdge(func(fc eng.Fact) bool { return fc.Pos && fc.Y == nil && isHiddenTest(info, fc.X) }))
+			hiddenOK = g.OnlyVia(n, nil, g.FactEdge(func(fc eng.Fact) bool { return fc.Pos && fc.Y == nil && isHiddenTestIn(info, f.Decl.Body, fc.X) }))
 		}
 		// and a hidden name cannot pass: avoiding every edge on which the name is known NOT to be hidden, only the
 		// rejecting return is reachable
 		if hiddenOK {
-			notHidden := g.FactEdge(func(fc eng.Fact) bool { return !fc.Pos && fc.Y == nil && isHiddenTest(info, fc.X) })
+			notHidden := g.FactEdge(func(fc eng.Fact) bool { return !fc.Pos && fc.Y == nil && isHiddenTestIn(info, f.Decl.Body, fc.X) })
 			reach := g.Reach(eng.Query{FromEntry: true, AvoidEdge: notHidden})
 			for m := range reach {
 				if r, isR := m.Node.(*ast.ReturnStmt); isR && len(r.Results) == 1 && eng.SelObj(info, r.Results[0]) != hiddenErr {
@@ -491,6 +499,16 @@ func onErrorOnlyNaming(g *eng.Graph, info *types.Info, call *ast.CallExpr, f *en
 		return true
 	})
 	return ok && found
+}
+
+// isHiddenTestIn is isHiddenTest with the name possibly held in a local of body.
+func isHiddenTestIn(info *types.Info, body ast.Node, e ast.Expr) bool {
+	cl, ok := ast.Unparen(e).(*ast.CallExpr)
+	if !ok || !eng.IsPkgFunc(eng.CalleeOf(info, cl), "strings", "HasPrefix") || len(cl.Args) != 2 {
+		return false
+	}
+	s, isS := eng.ConstStr(info, cl.Args[1])
+	return isS && s == "." && isCallNamed(info, resolveLocal(info, body, cl.Args[0]), "Name")
 }
 
 func isHiddenTest(info *types.Info, e ast.Expr) bool {
